@@ -1311,7 +1311,10 @@ class CFG:
 
     def materialize(self, max_length):
         "Return a `Chart` with this grammar's weighted language for strings ≤ `max_length`."
-        return self.cnf.language(max_length).filter(lambda x: len(x) <= max_length)
+        # In CNF a string of length n >= 1 has derivations of height <= n, but the
+        # empty string needs height 1 (the rule S -> ε), not 0.
+        depth = max(max_length, 1)
+        return self.cnf.language(depth).filter(lambda x: len(x) <= max_length)
 
     def to_bytes(self):
         """Convert terminal symbols from strings to bytes representation.
